@@ -57,8 +57,8 @@ MUTANTS = [
   "    return _cylinder(p[0], 0, p[1], p[2], 0, 1, 0)",
   "    return _cylinder(p[1], 0, p[0], p[2], 0, 1, 0)"),
  ('C02-6', 'C02', 'MIP/geom/forcad.py',
-  "            y0 = p[0] - p[1]/tana\n            nappe = 1 if y0 < p[0] else -1",
-  "            y0 = p[0] - p[1]/tana\n            nappe = -1 if y0 < p[0] else 1"),
+  "            # see xx()\n            nappe = 1 if tana > 0 else -1\n            return _cone(0, y0, 0,",
+  "            # see xx()\n            nappe = -1 if tana > 0 else 1\n            return _cone(0, y0, 0,"),
  ('C02-7', 'C02', K + 'Surface/ConversionSurfaceMCNPToT4.py',
   "    return SurfaceCollection([(cone, 1), (plane, -int(nappe) * flip)])",
   "    return SurfaceCollection([(cone, 1), (plane, int(nappe) * flip)])"),
@@ -95,8 +95,8 @@ MUTANTS = [
   "    m_mat = np.matmul(r_mat, q_mat)",
   "    m_mat = np.matmul(q_mat, r_mat)"),
  ('C04-3', 'C04', K + 'FileHandlers/Parser/ParseMCNPCell.py',
-  "            if '*' in elt:\n                trcl_params[3:12] = list(map(to_cos, trcl_params[3:12]))",
-  "            if False:\n                trcl_params[3:12] = list(map(to_cos, trcl_params[3:12]))"),
+  "                if '*' in elt:\n                    trcl_params[3:12] = [None if x is None else to_cos(x)",
+  "                if False:\n                    trcl_params[3:12] = [None if x is None else to_cos(x)"),
  ('C04-4', 'C04', K + 'Transformation/Transformation.py',
   "    row_2 = vect(row_0, row_1)\n    matrix[3 * i_row:3 * i_row + 3] = row_2",
   "    row_2 = vect(row_1, row_0)\n    matrix[3 * i_row:3 * i_row + 3] = row_2"),
@@ -132,8 +132,8 @@ MUTANTS = [
   "        if isCellRef(p_tree):\n            new_cell_key = self.cell_transform(p_tree.cell, p_transf)\n            return CellRef(new_cell_key)",
   "        if isCellRef(p_tree):\n            return p_tree"),
  ('C05-5', 'C05', K + 'FileHandlers/Parser/ParseMCNPCell.py',
-  "            fill_params[3:12] = list(map(to_cos, fill_params[3:12]))",
-  "            fill_params[3:12] = list(fill_params[3:12])"),
+  "            fill_params[3:12] = [None if x is None else to_cos(x)",
+  "            fill_params[3:12] = [None if x is None else x"),
  ('C05-6', 'C05', K + 'Volume/CellConversion.py',
   "                else:\n                    new_cell.geometry = ('*', CellRef(key),\n                                         CellRef(new_elt_key))",
   "                else:\n                    new_cell.geometry = ('*', CellRef(new_elt_key),\n                                         CellRef(new_elt_key))"),
@@ -242,8 +242,8 @@ MUTANTS = [
   "    total_fractions = fsum(float(normalize_float(frac))\n                           for _, frac in fractions)",
   "    total_fractions = max(float(normalize_float(frac))\n                          for _, frac in fractions)"),
  ('C10-4', 'C10', K + 'Composition/CCompositionMCNP.py',
-  "                # this is a keyword, skip it\n                i += 1",
-  "                # this is a keyword, skip it\n                i += 2"),
+  "                    i += 1\n                i += n_values\n                continue",
+  "                    i += 1\n                i += n_values + 1\n                continue"),
  ('C10-5', 'C10', K + 'Composition/CompositionConversionMCNPToT4.py',
   "            elif positive_fraction != atom_fracs:",
   "            elif positive_fraction != positive_fraction:"),
